@@ -18,7 +18,7 @@ META = {
         'instance each, no __eq__ override; (D3) Grid._approx_check never applies a kind-specific operation '
         '(attribute, method, arithmetic) to v2 unless v2\'s kind was tested, and Grid.__eq__ covers metadata keys '
         'and values, column keys, column-meta sizes and values, row count and every column of every row.  '
-        'Also (D3): per-kind components of _approx_check (datetime: zone, date, time; Quantity: unit, value; Coordinate: latitude, longitude) all enter the comparison; the float branch is exact tests plus ONE absolute tolerance in [5e-7, 1e-6] (relative or operand-dependent bounds are violations); (D1) __hash__ reads a field through the same coarsening (round/lower/...) that __eq__ compares.  Not decided: reflexivity/symmetry over all pairs as executions; the float tolerance itself.'),
+        'Also (D3): per-kind components of _approx_check (datetime: zone, date, time; Quantity: unit, value; Coordinate: latitude, longitude) all enter the comparison; the float branch is exact tests plus ONE absolute tolerance in [5e-7, 1e-6] (relative or operand-dependent bounds are violations); (D1) __hash__ reads a field through the same coarsening (round/lower/...) that __eq__ compares.  Also (D1): __ne__ written as `not self.__eq__(other)` is refused when __eq__ answers NotImplemented for foreign kinds.  Not decided: reflexivity/symmetry over all pairs as executions; the float tolerance itself.'),
     'rule_text': 'one obligation per (class, rule) for 10 classes, per singleton fact, per _approx_check branch '
                  '(guard dominance), per coverage fact of Grid.__eq__',
     'trusted_base': ['Python falls back to the reflected __eq__ and then to identity when NotImplemented is returned; '
